@@ -371,6 +371,9 @@ func (d *driver) runPending() {
 			outcome = "timeout"
 		}
 		c.Count("cyclic:" + entry + ":" + outcome)
+		if p.probe.BigStack {
+			c.Note(fmt.Sprintf("witness w=[1,w], %s from an EMPTY sink in a child with Go's default 1 GB stack cap: outcome %s after %d ms (the recursion is stopped only by the size limit, ~2*10^5 nested calls)", entry, outcome, r.Millis))
+		}
 		c.Nontrivial(fmt.Sprintf("cyc%v%s%d", g, entry, p.probe.Prefill))
 		if i < 2 {
 			c.Sample(map[string]interface{}{"kind": "cyclic:" + p.in.Kind, "graph": g, "entry": entry, "outcome": outcome})
@@ -1034,7 +1037,7 @@ func Run(c *hx.Ctx) {
 	}
 
 	// acyclic graphs
-	nG := c.N(300, 3000)
+	nG := c.N(300, 2400)
 	for i := 0; i < nG; i++ {
 		var prefix []byte
 		if c.Intn(6) == 0 {
